@@ -386,3 +386,85 @@ pub fn free_running(em: &mut Emit, thorough: bool) {
         );
     }
 }
+
+/// A consumer whose waker polls the body INLINE, on whatever thread calls `wake()` (some executors
+/// do). The producer's flush / drop must return all the same: it must not call `wake()` while it
+/// holds the chunker's lock, or the inline poll re-enters that lock on the same thread.
+struct InlineWaker {
+    body: std::sync::Arc<std::sync::Mutex<std::pin::Pin<Box<SBody>>>>,
+    got: std::sync::Arc<std::sync::Mutex<Vec<String>>>,
+}
+
+impl std::task::Wake for InlineWaker {
+    fn wake(self: std::sync::Arc<Self>) {
+        inline_poll(&self.body, &self.got);
+    }
+}
+
+fn inline_poll(body: &std::sync::Arc<std::sync::Mutex<std::pin::Pin<Box<SBody>>>>, got: &std::sync::Arc<std::sync::Mutex<Vec<String>>>) {
+    use http_body::Body as _;
+    let waker = std::task::Waker::from(std::sync::Arc::new(InlineWaker { body: body.clone(), got: got.clone() }));
+    let mut cx = std::task::Context::from_waker(&waker);
+    let mut b = body.lock().unwrap();
+    loop {
+        match b.as_mut().poll_frame(&mut cx) {
+            std::task::Poll::Ready(Some(Ok(f))) => got.lock().unwrap().push(format!("D{}", hex(&f.into_data().unwrap()))),
+            std::task::Poll::Ready(Some(Err(_))) => {
+                got.lock().unwrap().push("ERR".into());
+                break;
+            }
+            std::task::Poll::Ready(None) => {
+                got.lock().unwrap().push("END".into());
+                break;
+            }
+            std::task::Poll::Pending => break,
+        }
+    }
+}
+
+pub fn inline_waker(em: &mut Emit) {
+    use bytes::Bytes;
+    use std::io::Write as _;
+    let (shard_i, _) = shard();
+    if shard_i != 0 {
+        return;
+    }
+    for (gz, abort) in [(false, false), (true, false), (false, true)] {
+        let mut rb = http::Request::get("/");
+        if gz {
+            rb = rb.header("accept-encoding", "gzip");
+        }
+        let req = rb.body(()).unwrap();
+        let (resp, w) = http_serve::streaming_body(&req).with_chunk_size(16).with_gzip_level(6).build::<Bytes, BoxError>();
+        let mut w = w.unwrap();
+        let body = std::sync::Arc::new(std::sync::Mutex::new(Box::pin(resp.into_body())));
+        let got: std::sync::Arc<std::sync::Mutex<Vec<String>>> = Default::default();
+        inline_poll(&body, &got); // parks: Pending, inline waker registered
+        let (tx, rx) = std::sync::mpsc::channel();
+        std::thread::spawn(move || {
+            let _ = w.write_all(b"hello");
+            let _ = w.flush();
+            let _ = w.write_all(b"0123456789abcdefXYZ");
+            if abort {
+                w.abort(Box::new(std::io::Error::other("aborted by harness")));
+            }
+            drop(w);
+            let _ = tx.send(());
+        });
+        let returned = rx.recv_timeout(std::time::Duration::from_secs(10)).is_ok();
+        let seen = got.lock().map(|g| g.clone()).unwrap_or_default();
+        let terminal = seen.last().map(|s| s.as_str());
+        let ok = returned && ((abort && terminal == Some("ERR")) || (!abort && terminal == Some("END")));
+        em.pred_only(
+            &format!("consumer whose waker polls the body inline on the waking thread (gzip={}, abort={})", gz, abort),
+            &pred(ok, || {
+                if !returned {
+                    "the producer's write/flush/drop did not return within 10 s: wake() is called while the lock is held and the inline poll deadlocks on it".to_string()
+                } else {
+                    format!("consumer saw {:?}", seen)
+                }
+            }),
+            "inline-waker",
+        );
+    }
+}
